@@ -91,22 +91,41 @@ class C13(Prop):
             "representative drawn per position) up to length 5 (quick) / 7 (thorough), plus random longer names built "
             "from words and separator runs with edge runs, trailing newlines, '--' at every position and non-ASCII "
             "characters; observables canonicalize_name(n), canonicalize_name(n, validate=True) or InvalidName, "
-            "is_normalized_name(n); the Python oracles of the laws are compared with the Lean spec on the same inputs; "
+            "is_normalized_name(n); str.lower() on every code point it changes, their neighbours and images (quick) / on every "
+            "code point (thorough); the Python oracles of the laws are compared with the Lean spec on the same inputs; "
             "non-trivial = the name is accepted by validate=True")
     trusted = ["str.lower: per-code-point table regenerated from the running interpreter (checked entry by entry in Lean for "
                "idempotence); the call sites (.match, .sub('-', ...), .lower()) are hand-modelled and tied by correspondence",
                "CPython re: structural semantics of concatenation/alternation/repetition and of the anchors (atoms are measured)"]
     partial = ["the context-dependent final form of U+03A3 (GREEK CAPITAL SIGMA -> final sigma) is outside the model of str.lower: "
                "the folding theorems are about the per-code-point table; inputs containing U+03A3 are not generated by the correspondence"]
-    budget = {"quick": (26000, 6000), "thorough": (1040000, 120000)}
+    budget = {"quick": (31000, 6000), "thorough": (2160000, 120000)}
 
     def _exhaustive(self, rng, maxlen):
         for n in range(maxlen + 1):
             for combo in itertools.product(range(len(CLASS_REPS)), repeat=n):
                 yield "".join(rng.choice(CLASS_REPS[c]) for c in combo)
 
+    def _lower_sweep(self, rng, full):
+        """str.lower per code point: every code point it changes with its neighbours and images (quick),
+        every code point (thorough)"""
+        if full:
+            cps = range(0x110000)
+        else:
+            dom = [cp for cp in range(0x110000) if chr(cp).lower() != chr(cp)]
+            s = set()
+            for cp in dom:
+                s.update((cp - 1, cp, cp + 1))
+                s.update(ord(x) for x in chr(cp).lower())
+            s.update(rng.randrange(0x110000) for _ in range(500))
+            cps = sorted(s)
+        for cp in cps:
+            if cp != 0x3A3:
+                yield ("str.lower", [core.enc(chr(cp))])
+
     def gen_cases(self, rng, n):
         maxlen = 5 if n < 500000 else 7
+        yield from self._lower_sweep(rng, maxlen == 7)
         for s in self._exhaustive(rng, maxlen):
             yield ("name.all", [core.enc(s)])
         k = 0
@@ -122,6 +141,8 @@ class C13(Prop):
 
     def real(self, op, args):
         s = core.dec(args[0])
+        if op == "str.lower":
+            return core.enc(s.lower())
         if op == "s.name.all":       # the oracles used by the laws vs the Lean spec the theorems are about
             return f"{core.enc(ref_fold(s))} {core.encb(ref_valid(s))} {core.encb(ref_normalized(s))}"
         InvalidName, canonicalize_name, is_normalized_name = _names()
